@@ -52,6 +52,11 @@ func c10FHIRAlphabet() []c10Item {
 		{"f.1.0", &dtpb.Decimal{Value: "1.0"}, "num1", "Decimal"},
 		{"f.1.00", &dtpb.Decimal{Value: "1.00"}, "num1", "Decimal"},
 		{"s.1", system.Integer(1), "num1", "Integer"},
+		// items of different types that print alike are different items
+		{"s.'1'", system.String("1"), "str1", "String"},
+		{"f.'1'", fhir.String("1"), "str1", "String"},
+		{"s.true", system.Boolean(true), "true", "Boolean"},
+		{"s.'true'", system.String("true"), "strtrue", "String"},
 	}
 }
 
@@ -449,6 +454,29 @@ func init() {
 						}
 						if !okSel {
 							r.Fail(c10Key("select", p.name, lenClass(len(c)), "not-the-concatenation", c10Disc(res)), w(src, res, "["+strings.Join(selected, ", ")+"]"))
+						}
+					}
+					// exists(p) = where(p).exists() also for criteria that are not defined on every item (an ordering against a
+					// number fails on a String or a complex item, a string function on a multi-item path): both forms give the
+					// same value or both fail, wherever in the collection the offending item sits
+					for _, ps := range []string{"$this > 0", "$this + 1 = 2", "$this.toString() = '1'", "given.startsWith('A')", "$this < 'b'", "$this = 1 or $this > 1"} {
+						ex := run(r, "%c.exists("+ps+")", env, nil)
+						wh := run(r, "%c.where("+ps+").exists()", env, nil)
+						r.State("crit-partial|" + ps + "|" + lenClass(len(c)))
+						r.Nontrivial("partial", ps, c10Ids(c), ex.Class(), wh.Class())
+						if ex.Panic != nil || wh.Panic != nil {
+							r.Fail(c10Key("exists", "partial:"+ps, lenClass(len(c)), "panic", c10Disc(ex)), core.W{"c": c10Ids(c), "criterion": ps})
+							continue
+						}
+						exv, whv := ex.String(), wh.String()
+						if ex.Err != nil {
+							exv = "error"
+						}
+						if wh.Err != nil {
+							whv = "error"
+						}
+						if exv != whv {
+							r.Fail(c10Key("exists", "partial:"+ps, lenClass(len(c)), "!=where.exists", exv+"-vs-"+whv), core.W{"c": c10Ids(c), "criterion": ps, "exists(p)": ex.String(), "where(p).exists()": wh.String()})
 						}
 					}
 					// select($this) is the identity, select of a path concatenates in order
